@@ -25,6 +25,8 @@ from quara.loss_function.standard_qtomography_based_weighted_relative_entropy im
     StandardQTomographyBasedWeightedRelativeEntropy as FWRE, StandardQTomographyBasedWeightedRelativeEntropyOption as FWREO)
 from quara.loss_function.simple_quadratic_loss_function import SimpleQuadraticLossFunction
 
+from quara.settings import Settings
+ATOL = q(Settings.get_atol())
 EPS10 = "1/10000000000"
 EPS8 = "1/100000000"
 MODES = ("identity", "custom", "inverse_sample_covariance", "inverse_unbiased_covariance")
@@ -169,6 +171,8 @@ def toks_weights(Ws):
 
 def err_kind(e):
     s = str(e)
+    if "must be symmetric" in s:
+        return "notSymmetric"
     if "broadcast" in s:
         return "broadcast"
     if isinstance(e, IndexError):
@@ -189,10 +193,7 @@ def correspondence(ctx):
     ctx.partial = [
         {"theorem": "QM.C12.wre_gradient_hasDerivAt_partial",
          "missing": "stated for the unclipped defining formula Σ q log(q/p(t)); equality of relative_entropy with it near the point "
-                    "(thresholds inactive, numpy log = Real.log) and the Hessian-as-second-derivative are checked by correspondence/oracle only"},
-        {"theorem": "QM.C12.fast_mode_takes_effect_partial",
-         "missing": "the fast loss applies the mode's weights only from the second identical configuration on; the first configuration "
-                    "is the proved negation witness fast_mode_takes_effect_fails (defect D9a)"}]
+                    "(thresholds inactive, numpy log = Real.log) and the Hessian-as-second-derivative are checked by correspondence/oracle only"}]
     ctx.notes.append("hessian of the fast losses raises NotImplementedError by design; fast = generic is proved for value and gradient")
     drv = Driver("C12")
     pend = []
@@ -328,8 +329,8 @@ def correspondence(ctx):
             return [np.asarray(w, dtype=float).flatten().tolist() for w in ws]
         impl_g = res_g or ("ok", fmt(lg.weight_matrices))
         impl_f = res_f or ("ok", fmt(lf.weight_matrices), fmt(lf._extend_weight_matrix))
-        ask("wiring-generic", (kind, m, seq), impl_g, "wiring", "generic", m, "true" if grad_req else "false", rounds, *toks, kind="wiring")
-        ask("wiring-fast", (kind, m, seq, grad_req), impl_f, "wiring", "fast", m, "true" if grad_req else "false", rounds, *toks, kind="wiring")
+        ask("wiring-generic", (kind, m, seq), impl_g, "wiring", "generic", ATOL, m, "true" if grad_req else "false", rounds, *toks, kind="wiring")
+        ask("wiring-fast", (kind, m, seq, grad_req), impl_f, "wiring", "fast", ATOL, m, "true" if grad_req else "false", rounds, *toks, kind="wiring")
         ctx.case(("wiring", kind, m, tuple(seq), grad_req), nontrivial=len(seq) > 1 or seq[0] != "identity",
                  sample={"op": "wiring", "modes": seq, "outcomes": m})
         ctx.count("wiring first mode=" + seq[0])
@@ -453,32 +454,51 @@ def check_conf(ctx, kind, flag, m, salt):
     # --- (3) every weighting mode takes effect, generic == fast after configuration through the option
     for mode in MODES:
         Wc = sym_weights(g, S, mm) if mode == "custom" else None
-        if mode == "identity":
-            Wref = [np.eye(mm)] * S
-        elif mode == "custom":
-            Wref = Wc
-        else:
-            Wref = inv_cov_reference(data, mode)
-        ref = sum((p - f) @ (Wref[j] @ (p - f)) for j, (p, f) in enumerate(zip(_born_at(qt, kind, testers, x), qs)))
-        vals = {}
-        for name, cls, ocls in (("generic", WSE, WSEO), ("fast", FWSE, FWSEO)):
-            l = cls(nv)
-            try:
-                l.set_from_standard_qtomography_option_data(qt, ocls(mode, weights=Wc), data, True, False)
-                vals[name] = (float(l.value(x)), l.gradient(x))
-            except Exception as e:  # noqa
-                sig = f"C12/wse/{mode}/outcomes-gt2/raises" if (mode.startswith("inverse") and mm > 2) else f"C12/wse/{name}/{mode}/raises"
-                ctx.violate(sig, f"{name} loss, mode {mode}, {mm} outcomes: {type(e).__name__}: {e}", {**rep, "mode": mode})
-                continue
-            if not close(vals[name][0], ref, 1e-7):
-                if name == "fast":
-                    sig = "C12/fast-wse/mode-ignored" if mode != "identity" else f"C12/fast-wse/identity/{tag}"
-                else:
-                    sig = f"C12/wse/mode-takes-effect/{mode}"
-                ctx.violate(sig, f"{name} loss configured with mode {mode} ({tag}): value {vals[name][0]} vs the mode's definition {ref}", {**rep, "mode": mode})
-        if len(vals) == 2 and (not close(vals["generic"][0], vals["fast"][0], 1e-9)):
-            ctx.violate("C12/fast-wse/mode-ignored" if mode != "identity" else f"C12/fast-vs-generic/identity/{tag}",
-                        f"mode {mode} ({tag}): generic {vals['generic'][0]} vs fast {vals['fast'][0]}", {**rep, "mode": mode})
+        # the covariance modes may reject numpy's float inverse as "not symmetric" (open finding D9e): try a few data sets
+        tries = 6 if mode.startswith("inverse") else 1
+        done = False
+        for attempt in range(tries):
+            dat = data if attempt == 0 else make_data(g, ps, 60 + 7 * attempt, zeros=bool((salt + attempt) % 2))
+            fs = [d[1] for d in dat]
+            if mode == "identity":
+                Wref = [np.eye(mm)] * S
+            elif mode == "custom":
+                Wref = Wc
+            else:
+                Wref = inv_cov_reference(dat, mode)
+            ref = sum((p - f) @ (Wref[j] @ (p - f)) for j, (p, f) in enumerate(zip(_born_at(qt, kind, testers, x), fs)))
+            vals = {}
+            raised = False
+            for name, cls, ocls in (("generic", WSE, WSEO), ("fast", FWSE, FWSEO)):
+                l = cls(nv)
+                try:
+                    l.set_from_standard_qtomography_option_data(qt, ocls(mode, weights=Wc), dat, True, False)
+                    vals[name] = (float(l.value(x)), l.gradient(x))
+                except Exception as e:  # noqa
+                    raised = True
+                    if mode.startswith("inverse") and "must be symmetric" in str(e):
+                        sig = "C12/wse/inverse-covariance/asymmetric-inverse-rejected"
+                    elif mode.startswith("inverse") and mm > 2:
+                        sig = f"C12/wse/{mode}/outcomes-gt2/raises"
+                    else:
+                        sig = f"C12/wse/{name}/{mode}/raises"
+                    ctx.violate(sig, f"{name} loss, mode {mode}, {mm} outcomes, shots {[d[0] for d in dat]}: {type(e).__name__}: {e}",
+                                {**rep, "mode": mode})
+                    continue
+                if not close(vals[name][0], ref, 1e-7):
+                    if name == "fast":
+                        sig = "C12/fast-wse/mode-ignored" if mode != "identity" else f"C12/fast-wse/identity/{tag}"
+                    else:
+                        sig = f"C12/wse/mode-takes-effect/{mode}"
+                    ctx.violate(sig, f"{name} loss configured with mode {mode} ({tag}): value {vals[name][0]} vs the mode's definition {ref}", {**rep, "mode": mode})
+            if len(vals) == 2 and (not close(vals["generic"][0], vals["fast"][0], 1e-9)
+                                   or not np.allclose(vals["generic"][1], vals["fast"][1], rtol=1e-8, atol=1e-10)):
+                ctx.violate("C12/fast-wse/mode-ignored" if mode != "identity" else f"C12/fast-vs-generic/identity/{tag}",
+                            f"mode {mode} ({tag}): generic {vals['generic'][0]} vs fast {vals['fast'][0]}", {**rep, "mode": mode})
+            if not raised:
+                done = True
+                break
+        ctx.count(f"mode {mode} m={mm} " + ("evaluated" if done else "never accepted"))
     # relative entropy: custom weights given through the option
     if min(float(np.min(p)) for p in pb) > 0.02:
         wopt = [float(v) for v in g.integers(2, 6, size=S)]
